@@ -5,6 +5,7 @@ import (
 	"encoding/json"
 	"fmt"
 	"io"
+	"strconv"
 	"strings"
 
 	mxj "github.com/clbanning/mxj/v2"
@@ -22,6 +23,8 @@ type c13Case struct {
 	ByteRd bool     `json:"byte_reader"`
 	StopAt int      `json:"handler_returns_false_at,omitempty"`          // 1-based; 0 = never
 	Stalls int      `json:"empty_reads_before_every_delivery,omitempty"` // patterned schedule: (0,nil) this many times before each delivery
+	Chunk  int      `json:"bytes_per_read,omitempty"`                    // patterned schedule: at most this many bytes per Read
+	Big    int      `json:"big_document_bytes,omitempty"`                // Docs[0] is replaced by a generated document of about this size
 }
 
 func init() {
@@ -46,6 +49,7 @@ type scriptReader struct {
 	overHorz bool
 	stalls   int // patterned schedule: this many (0,nil) answers before every delivery (no choice points)
 	stalled  int
+	chunk    int // patterned schedule: at most this many bytes per Read
 }
 
 func (r *scriptReader) Read(p []byte) (int, error) {
@@ -82,6 +86,9 @@ func (r *scriptReader) Read(p []byte) (int, error) {
 		n := len(p)
 		if n > rem {
 			n = rem
+		}
+		if r.chunk > 0 && n > r.chunk {
+			n = r.chunk
 		}
 		opts = append(opts, opt{n, false, false})
 		if n > 1 {
@@ -150,7 +157,32 @@ func jsonStripWS(s string) string {
 }
 
 // c13Exec runs one execution (under the current chooser) and checks it.
+// c13BigDoc: a well-formed document of about n bytes in the family of the given one (XML or JSON).
+func c13BigDoc(json bool, n int) string {
+	var sb strings.Builder
+	if json {
+		sb.WriteString(`{"big":[`)
+		for i := 0; sb.Len() < n; i++ {
+			if i > 0 {
+				sb.WriteString(",")
+			}
+			sb.WriteString(`{"i":` + strconv.Itoa(i) + `,"s":"} \\ \" {"}`)
+		}
+		sb.WriteString(`]}`)
+		return sb.String()
+	}
+	sb.WriteString(`<big n="1">`)
+	for i := 0; sb.Len() < n; i++ {
+		sb.WriteString(`<i k="` + strconv.Itoa(i) + `">v &amp; ` + strconv.Itoa(i) + `</i>`)
+	}
+	sb.WriteString(`</big>`)
+	return sb.String()
+}
+
 func c13Exec(c *Ctx, k c13Case, choices []int) {
+	if k.Big > 0 {
+		k.Docs = append([]string{c13BigDoc(strings.Contains(k.Fn, "Json"), k.Big)}, k.Docs[1:]...)
+	}
 	stream := strings.Join(k.Docs, k.Sep) + k.Trail
 	// document boundaries in the stream
 	var starts, ends []int
@@ -163,7 +195,7 @@ func c13Exec(c *Ctx, k c13Case, choices []int) {
 			off += len(k.Sep)
 		}
 	}
-	sr := &scriptReader{data: []byte(stream), horizon: (6*len(stream) + 60) * (k.Stalls + 1), stalls: k.Stalls}
+	sr := &scriptReader{data: []byte(stream), horizon: (6*len(stream) + 60) * (k.Stalls + 1), stalls: k.Stalls, chunk: k.Chunk}
 	var rdr io.Reader = sr
 	var sbr *scriptByteReader
 	if k.ByteRd {
@@ -396,7 +428,7 @@ func c13Exec(c *Ctx, k c13Case, choices []int) {
 
 func c13Run(c *Ctx) {
 	mustBeDefault(c)
-	c.S.Rule = "cases = (stream, function, reader kind, handler stop point); streams are concatenations of 1..3 documents (XML: <a/>, <a>x</a>, <a b=\"1\"><c/>t</a>, a document with XML declaration; JSON: {\"a\":1}, a string value with braces and quotes, a string ending in an escaped backslash, a string with an escaped backslash followed by an escaped quote, nested object/array with a bracket in a string) with separators {none, space, newline+tab} and optional trailing blanks; functions NewMapXmlReader[Raw], NewMapXmlSeqReader[Raw], NewMapJsonReader[Raw], HandleXmlReader[Raw], HandleJsonReader[Raw] (map handler returning false at every k), x2j-wrapper ToMap / XmlMsgsFromReader; reader kinds plain io.Reader and io.Reader+io.ByteReader. Schedules (E-choice): every Read call is a choice point - default full delivery, short read, (0,nil) (at most 2 in a row), final data together with io.EOF - explored exhaustively for deviation bound 0,1,2 (3 in thorough on single documents); plus patterned schedules with 50 and 97 empty reads before every delivery (bound 1 over the remaining choices). Oracle: results = direct decodes in order then io.EOF, no over-read into the next document, Raw values as documented, handlers once per document in order and stop on false, termination within the reader horizon. non-trivial = executions with at least one deviation (counted in counters.deviating_schedules)."
+	c.S.Rule = "cases = (stream, function, reader kind, handler stop point); streams are concatenations of 1..3 documents (XML: <a/>, <a>x</a>, <a b=\"1\"><c/>t</a>, a document with XML declaration; JSON: {\"a\":1}, a string value with braces and quotes, a string ending in an escaped backslash, a string with an escaped backslash followed by an escaped quote, nested object/array with a bracket in a string) with separators {none, space, newline+tab} and optional trailing blanks; functions NewMapXmlReader[Raw], NewMapXmlSeqReader[Raw], NewMapJsonReader[Raw], HandleXmlReader[Raw], HandleJsonReader[Raw] (map handler returning false at every k), x2j-wrapper ToMap / XmlMsgsFromReader; reader kinds plain io.Reader and io.Reader+io.ByteReader. Schedules (E-choice): every Read call is a choice point - default full delivery, short read, (0,nil) (at most 2 in a row), final data together with io.EOF - explored exhaustively for deviation bound 0,1,2 (3 in thorough on single documents); plus patterned schedules with 50 and 97 empty reads before every delivery (bound 1 over the remaining choices); plus large first documents (about 4090, 4096, 4100 and 9000 bytes: around the 4096-byte buffers of bufio and the tokenizer) followed by a small one, delivered whole, 1 byte, 7 bytes and 4096 bytes per Read (bound 0). Oracle: results = direct decodes in order then io.EOF, no over-read into the next document, Raw values as documented, handlers once per document in order and stop on false, termination within the reader horizon. non-trivial = executions with at least one deviation (counted in counters.deviating_schedules)."
 	c.S.Assumptions = []string{"JSON raw = the document with JSON-insignificant white space removed (the implementation strips it by design)", "the empty JSON object {} is not in the alphabet (handlers treat an empty Map as 'nothing arrived yet' by design)", "an io.ByteReader cannot legally deliver a byte together with an error, so that kind has only the default schedule"}
 	xmlDocs := []string{`<a/>`, `<a>x</a>`, `<a b="1"><c/>t</a>`, `<?xml version="1.0"?><a>y</a>`}
 	jsonDocs := []string{`{"a":1}`, `{"a":"}{\""}`, `{"a":"x\\"}`, `{"a":{"b":[1,{"c":"]"}]}}`, `{"e":"\\\"{"}`, `{"p":"C:\\dir\\ "}`}
@@ -459,6 +491,28 @@ func c13Run(c *Ctx) {
 			cases = append(cases, k2)
 		}
 	}
+	// large documents (beyond the 4096-byte buffers of bufio and the tokenizer): a generated document of
+	// 4090-4100 / 9000 bytes followed by a small one, delivered whole, byte by byte, 7 bytes at a time and in
+	// 4096-byte pieces; no further deviations (bound 0)
+	for _, k := range append([]c13Case(nil), cases...) {
+		if k.ByteRd || len(k.Docs) != 2 || k.Stalls > 0 || k.Trail != "" || k.StopAt > 1 || k.Docs[0] != k.Docs[1] {
+			continue
+		}
+		first := xmlDocs[0]
+		if strings.Contains(k.Fn, "Json") {
+			first = jsonDocs[0]
+		}
+		if k.Docs[0] != first {
+			continue
+		}
+		for _, big := range []int{4090, 4096, 4100, 9000} {
+			for _, chunk := range []int{0, 1, 7, 4096} {
+				k2 := k
+				k2.Big, k2.Chunk = big, chunk
+				cases = append(cases, k2)
+			}
+		}
+	}
 	if c.Shard == 0 {
 		c.Count("cases", int64(len(cases)))
 	}
@@ -479,6 +533,9 @@ func c13Run(c *Ctx) {
 		}
 		if k.Stalls > 0 {
 			bound = 1
+		}
+		if k.Big > 0 {
+			bound = 0
 		}
 		c.S.States++
 		c.S.Evaluations++
